@@ -61,6 +61,8 @@ def discriminator_key_if_absent(ctx, rule):
     model = ctx.model
     da = model.func(f"{SER_MOD}.DiscriminatedAlternative.serialize")
     st = [n for n in walk_no_nested(da.node) if isinstance(n, ast.Subscript) and isinstance(n.ctx, ast.Store) and norm(n.slice) == "self.alias"]
+    # copy-on-write form: res = {**res, self.alias: self.key}
+    st += [n for n in walk_no_nested(da.node) if isinstance(n, ast.Dict) and any(k is not None and norm(k) == "self.alias" for k in n.keys) and any(k is None for k in n.keys)]
     from ..boolx import BoolEval, Unknown
     from ..pathcond import complements, parents_of, path_condition
     pm = parents_of(da.node)
@@ -367,7 +369,7 @@ def mutants(mb):
                 "            try:\n                result = alt_method.deserialize(data)\n                break\n            except ValidationError as err:\n                error = merge_errors(error, err)\n        assert error is not None\n        raise error", "C13.R3", "UnionMethod")
     mb.add_text("ser-union-no-isinstance", S, "            if isinstance(obj, alternative.cls):\n                try:\n                    return alternative.serialize(obj, path)\n                except Exception:\n                    pass", "            try:\n                return alternative.serialize(obj, path)\n            except Exception:\n                pass", "C13.R4", "UnionMethod")
     mb.add_text("expected-class-default-object", "apischema/serialization/__init__.py", "    else:\n        raise TypeError(f\"{tp} is not supported in union serialization\")", "    else:\n        return object", "C13.R4", "expected_class")
-    mb.add_text("discriminator-key-overwrites", S, "        if isinstance(res, dict) and self.alias not in res:\n            res[self.alias] = self.key", "        if isinstance(res, dict):\n            res[self.alias] = self.key", "C13.R4", "DiscriminatedAlternative")
+    mb.add_text("discriminator-key-overwrites", S, "        if isinstance(res, dict) and self.alias not in res:\n", "        if isinstance(res, dict):\n", "C13.R4", "DiscriminatedAlternative")
     counter_mutants(mb, "C13.R5")
     mb.add_text("coercer-swallows-discriminated", M, "        if isinstance(data, Discriminated):\n            # wrapper put by DiscriminatorMethod around an object, nothing to coerce\n            return self.method.deserialize(data)\n", "", "C13.R6", "CoercerMethod")
     mb.add_text("discriminator-key-guard-or", S, "        if isinstance(res, dict) and self.alias not in res:", "        if isinstance(res, dict) or self.alias not in res:", "C13.R4", "DiscriminatedAlternative")
